@@ -394,7 +394,7 @@ Lemma erel_diag e c l1 l2 : erel (mkdiag e c l1) (mkdiag e c l2).
 Proof. reflexivity. Qed.
 
 Lemma erel_metadata k1 v1 k2 v2 : trelw k1 k2 -> trelw v1 v2 -> erel (EvMetadata k1 v1) (EvMetadata k2 v2).
-Proof. intros Hk Hv. unfold erel. cbn [proj]. rewrite (trelw_tx _ _ Hk), (trelw_tx _ _ Hv). reflexivity. Qed.
+Proof. intros Hk Hv. unfold erel. cbn [proj]. rewrite (trelw_tx _ _ Hk), (proj1 Hv). reflexivity. Qed.
 
 Lemma meta_diags_rel k1 v1 k2 v2 : trelw k1 k2 -> trelw v1 v2 -> Forall2 erel (meta_diags k1 v1) (meta_diags k2 v2).
 Proof.
